@@ -308,6 +308,18 @@ Fixpoint conj_ready (ls : list leaf_t) : rans :=
   | (_, ROk, _) :: t => conj_ready t
   end.
 
+(* the service after a poll_ready that did not hit an error: every leaf has consumed exactly one answer *)
+Fixpoint advance (e : sexpr) : sexpr :=
+  match e with
+  | Leaf id rs beh => Leaf id (tl rs) beh
+  | FnSvc _ _ => e
+  | AndThen a b => AndThen (advance a) (advance b)
+  | Map m a => Map m (advance a)
+  | MapErr m a => MapErr m (advance a)
+  | ApplyFn wf a => ApplyFn wf (advance a)
+  | Wrap k a => Wrap k (advance a)
+  end.
+
 (* the readiness event a leaf emits when polled with waker w *)
 Definition ev_of (w : nat) (x : leaf_t) : event := let '(id, a, _) := x in EvReady id w a.
 
